@@ -29,7 +29,7 @@ theorem invoke_fin {params : List Name} {fl : DefFlags} {own lex : Bool} {B : St
     (he : invoke (progOf ts k) (n + 1) ⟨⟨params, ⟨own, fl.deco, lex⟩, B⟩, clex, cmod⟩ vs l σ = (r, σ'))
     (hr : r ≠ .timeout)
     (core : ∀ bound σ1 o l3 σ2, zipArgs params vs = some bound → σ1.bufs = σ.bufs → σ1.frames = σ.frames →
-       σ1.next = σ.next → σ1.nextId = σ.nextId →
+       σ1.next = σ.next → σ1.nextId = σ.nextId → (own = false → σ1.loops = σ.loops) →
        exec (progOf ts k) n B ⟨bound ++ l.vars, l.funs, l.writer, [], clex, clex, [], lex, cmod⟩ σ1 = (o, l3, σ2) →
        o ≠ .timeout →
        ∃ R, Ev (fun m => Spec.snodes ⟨ts, k⟩ m sf.body (innerEnv sf lexS bound E pend) σ1.cnt) R ∧
@@ -81,7 +81,7 @@ theorem invoke_fin {params : List Name} {fl : DefFlags} {own lex : Bool} {B : St
         simp only [Prod.mk.injEq] at he
         exact hr he.1.symm
       obtain ⟨R, ⟨m0, eR⟩, hb2, hc2, hf2, hl2, hn2, hconv⟩ :=
-        core bound σ1 o l3 σ2 hz h1.1 h1.2.1 h1.2.2.1 h1.2.2.2.1 hex hto
+        core bound σ1 o l3 σ2 hz h1.1 h1.2.1 h1.2.2.1 h1.2.2.2.1 h1.2.2.2.2.2 hex hto
       generalize hσ3 : (if own = true then ({ σ2 with loops := σ0.loops } : St) else σ2) = σ3 at he
       have h3 : σ3.bufs = σ2.bufs ∧ σ3.frames = σ.frames ∧ σ3.next = σ.next ∧ σ3.cnt = σ2.cnt ∧ σ3.loops = σ.loops := by
         subst hσ3
@@ -134,12 +134,12 @@ theorem lookup_bound {α} (x : Name) (bound a b : List (Name × α)) (h : lookup
 
 /-- the state in which the statements of a def start, after `push_frame` (and `push_buffer`) and the prologue -/
 theorem relc_def_start {l : Loc} {σ σS : St} {E : Spec.Env} {pend : Spec.SNS} (bound : List (Name × Str)) (clex : NS)
-    (lex : Bool) (mod W extra : Nat) {newF : List (Name × Clo)} {newD : List (Name × Spec.SFun)}
+    (lex : Bool) (mod W extra : Nat) (iloops : List Nat) {newF : List (Name × Clo)} {newD : List (Name × Spec.SFun)}
     (hF : ClosRel newF newD) (hR : RelW l σ E) (hN : NSRel σ.next pend) (hfr : σS.frames = σ.next :: σ.frames)
-    (hbl : σS.bufs.length = E.nb + extra) :
+    (hbl : σS.bufs.length = E.nb + extra) (hlo : ∃ base, σS.loops.map (·.index) = iloops ++ base) :
     RelC (!lex) ⟨bound ++ l.vars, newF ++ l.funs, W, [], σ.next, clex, [], lex, mod⟩ σS
-      ⟨bound ++ E.vars, newD ++ E.defs, pend, [], E.nb + extra, E.nf + 1, mod⟩ := by
-  refine ⟨fun x => lookup_bound x bound _ _ (hR.vars x), ⟨σS.loops.map (·.index), by simp⟩, hbl, by simp [hfr, hR.nf],
+      ⟨bound ++ E.vars, newD ++ E.defs, pend, iloops, E.nb + extra, E.nf + 1, mod⟩ := by
+  refine ⟨fun x => lookup_bound x bound _ _ (hR.vars x), hlo, hbl, by simp [hfr, hR.nf],
     hF.append hR.funs, rfl, fun hcv => ?_, hN⟩
   have hlex : lex = false := by simpa using hcv
   subst hlex
@@ -155,9 +155,9 @@ theorem relc_body_start {l : Loc} {σ σS : St} {E : Spec.Env} {lexS : Spec.SNS}
     hF, rfl, fun _ => ⟨clex, by simp [callerView], hL⟩, hL⟩
 
 theorem rc_invoke (n : Nat) (ih : ∀ m, m < n + 1 → RC ts k m) : InvokeRef ts k (n + 1) := by
-  intro clo sf lexS vs l σ E pend i top rest r σ' hfr hmod hbody hR hN hl hlex hσ hb he hr
+  intro clo sf lexS vs l σ E pend i top rest r σ' hfr hmod hbody hblockH hR hN hl hlex hσ hb he hr
   obtain ⟨fn, clex, cmod⟩ := clo
-  simp only at hfr hmod hbody hlex
+  simp only at hfr hmod hbody hblockH hlex
   -- running the statements of the callable, with less fuel
   have runS : ∀ (m : Nat), m < n → ∀ (s : Scope) (body : Tmpl) (bf cv cb : Bool) (lS : Loc) (σS : St) (iS : Nat)
       (topS : Str) (restS : List (Nat × Str)) (inner : Spec.Env) (oS : Outcome) (lS' : Loc) (σS' : St),
@@ -175,30 +175,39 @@ theorem rc_invoke (n : Nat) (ih : ∀ m, m < n + 1 → RC ts k m) : InvokeRef ts
     exact ⟨out, vars', h1, h2, h5, b.frames, b.loops, by rw [b.next, hnS]⟩
   cases hfr with
   | def_ s ps fl body own lex mod kind hk hc hnd hg =>
-    simp only at hmod hbody
+    simp only at hmod hbody hblockH
     subst hmod
     refine invoke_fin ts k (sf := ⟨ps, fl, body, kind, cmod⟩) rfl rfl hc hb he hr ?_
-    intro bound σ1 o l3 σ2 hz hb1 hf1 hn1 hid1 hex hto
+    intro bound σ1 o l3 σ2 hz hb1 hf1 hn1 hid1 hlo1 hex hto
     have hσ1 : StOK σ1 := ⟨by rw [hf1]; exact hσ.frames, by rw [hn1]; exact hσ.next⟩
-    -- the prologue: the closures of the scope (none for the template body, whose defs are module-level)
+    -- the prologue: the closures of the scope
     have hlv : NSOK (cond lex clex []) := by cases lex <;> first | exact NSOK_nil | exact hlex
-    have pack : ∃ (P : Loc → Loc) (newF : List (Name × Clo)) (newD : List (Name × Spec.SFun)),
-        ProEff (progOf ts k) (hoist s body) P ∧
-        (∀ lx : Loc, lx.useLex = lex → lx.lexc = clex → lx.mod = cmod → P lx = { lx with funs := newF ++ lx.funs }) ∧
-        ClosRel newF newD ∧ (∀ p ∈ newF, FunOK p.2.fn ∧ NSOK p.2.lex) ∧
-        Spec.declared (kind == .main) cmod body = newD := by
-      rcases hk with ⟨rfl, ht⟩ | ⟨rfl, ht, _⟩
-      · refine ⟨hoistEff s body, hoistClos (cond lex clex []) cmod s body, Spec.declared false cmod body,
-          exec_hoist _ body s _ _ _ ht hg, ?_, hoist_closrel _ cmod body s _ _ _ ht hg hnd,
-          hoistClos_ok hlv cmod s body, rfl⟩
-        intro lx h1 h2 h3
-        simp [hoistEff, lexOf, h1, h2, h3]
-      · exact ⟨id, [], [], proeff_skips _ (good_top_hoist body s _ _ _ ht hg).1, fun lx _ _ _ => (by simp),
-          fun x _ => (by simp [lookup, OptRel]), fun p hp => (by cases hp), (good_top_hoist body s _ _ _ ht hg).2.2 cmod⟩
-    obtain ⟨P, newF, newD, hH, hPeq, hFD, hFok, hdecl⟩ := pack
-    have hinner : innerEnv ⟨ps, fl, body, kind, cmod⟩ lexS bound E pend =
-        ⟨bound ++ E.vars, newD ++ E.defs, pend, [], E.nb + (if Spec.isBuffering fl then 1 else 0), E.nf + 1, cmod⟩ := by
-      rcases hk with ⟨rfl, _⟩ | ⟨rfl, _, _⟩ <;> simp [innerEnv, ← hdecl]
+    have hkt : (kind == Spec.Kind.main) = s.top := by
+      rcases hk with ⟨rfl, ht⟩ | ⟨rfl, ht, _⟩ | ⟨rfl, ht, _⟩ <;> rw [ht] <;> rfl
+    have hndm : nodupB ((Spec.declared s.top cmod body).map (·.1)) = true := by
+      rw [declared_names_mod]; exact hnd
+    have hH := exec_hoist (progOf ts k) body s _ _ _ hg
+    have hPeq : ∀ lx : Loc, lx.useLex = lex → lx.lexc = clex → lx.mod = cmod →
+        hoistEff s body lx = { lx with funs := hoistClos (cond lex clex []) cmod s body ++ lx.funs } := by
+      intro lx h1 h2 h3
+      simp [hoistEff, lexOf, h1, h2, h3]
+    have hFD : ClosRel (hoistClos (cond lex clex []) cmod s body) (Spec.declared s.top cmod body) :=
+      closrel_of_x (hoist_closrel _ cmod body s _ _ _ hg hndm)
+    have hFok := hoistClos_ok hlv cmod s body
+    generalize hnF : hoistClos (cond lex clex []) cmod s body = newF at hPeq hFD hFok
+    generalize hnD : Spec.declared s.top cmod body = newD at hFD
+    -- the environment of the content: a block is entered without content and keeps the loop contexts
+    have hI : ∃ iloops, innerEnv ⟨ps, fl, body, kind, cmod⟩ lexS bound E pend =
+        ⟨bound ++ E.vars, newD ++ E.defs, pend, iloops, E.nb + (if Spec.isBuffering fl then 1 else 0), E.nf + 1, cmod⟩ ∧
+        ∃ base, σ1.loops.map (·.index) = iloops ++ base := by
+      rcases hk with ⟨rfl, ht⟩ | ⟨rfl, ht, _⟩ | ⟨rfl, ht, hown⟩
+      · exact ⟨[], by rw [← hkt] at hnD; simp [innerEnv, ← hnD], _, rfl⟩
+      · exact ⟨[], by rw [← hkt] at hnD; simp [innerEnv, ← hnD], _, rfl⟩
+      · obtain ⟨hn0, base, hbase⟩ := hblockH rfl
+        have hp : pend = [] := by rw [hn0] at hN; exact hN.nil_left
+        refine ⟨E.loops, by rw [← hkt] at hnD; simp [innerEnv, ← hnD, hp], base, ?_⟩
+        rw [hlo1 hown]; exact hbase
+    obtain ⟨iloops, hinner, hlo⟩ := hI
     rw [hinner]
     have hσS : StOK { σ1 with frames := σ1.next :: σ1.frames, next := [] } :=
       ⟨by intro f hf
@@ -227,8 +236,8 @@ theorem rc_invoke (n : Nat) (ih : ∀ m, m < n + 1 → RC ts k m) : InvokeRef ts
       obtain ⟨m, o1, l1, σb, hm, hS, hto1, hfin⟩ := core_buffered (progOf ts k) _ hH hex hto
       rw [hPeq _ rfl rfl rfl] at hS
       have hRS := relc_def_start (σS := { σ1 with frames := σ1.next :: σ1.frames, next := [], bufs := (σ1.nextId, []) :: σ1.bufs, nextId := σ1.nextId + 1 })
-            bound clex lex cmod σ1.nextId 1 hFD hR hN
-          (by simp [hn1, hf1]) (by simp [hb1, hR.nb])
+            bound clex lex cmod σ1.nextId 1 iloops hFD hR hN
+          (by simp [hn1, hf1]) (by simp [hb1, hR.nb]) hlo
       rw [← hn1] at hRS
       obtain ⟨out, vars', hbS, evS, hret, hfS, hlS', hnS⟩ := runS m hm s body _ (!lex) false _ _ σ1.nextId [] (σ1.bufs)
         _ o1 l1 σb (by rw [hib] at hg; exact hg) hRS rfl (hlS _) (hσS.of_eq rfl rfl) rfl rfl hS hto1
@@ -295,8 +304,8 @@ theorem rc_invoke (n : Nat) (ih : ∀ m, m < n + 1 → RC ts k m) : InvokeRef ts
         rw [hB] at hex
         obtain ⟨m, o1, l1, σb, hm, hS, hto1, hpop⟩ := core_plain (progOf ts k) hH (hb1.trans hb) hex hto
         rw [hPeq _ rfl rfl rfl] at hS
-        have hRS := relc_def_start (σS := { σ1 with frames := σ1.next :: σ1.frames, next := [] }) bound clex lex cmod i 0 hFD hR hN
-            (by simp [hn1, hf1]) (by simp [hb1, hR.nb])
+        have hRS := relc_def_start (σS := { σ1 with frames := σ1.next :: σ1.frames, next := [] }) bound clex lex cmod i 0 iloops hFD hR hN
+            (by simp [hn1, hf1]) (by simp [hb1, hR.nb]) hlo
         rw [← hn1] at hRS
         obtain ⟨out, vars', hbS, evS, hret, hfS, hlS', hnS⟩ := runS m hm s body _ (!lex) false _ _ i top rest
           _ o1 l1 σb (by rw [hib] at hg; exact hg) hRS rfl (hlS _) hσS (hb1.trans hb) rfl hS hto1
@@ -335,8 +344,8 @@ theorem rc_invoke (n : Nat) (ih : ∀ m, m < n + 1 → RC ts k m) : InvokeRef ts
         obtain ⟨m, o1, l1, σb, hm, hS, hto1, hfin⟩ := core_filtered (progOf ts k) _ hH hex hto
         rw [hPeq _ rfl rfl rfl] at hS
         have hRS := relc_def_start (σS := { σ1 with frames := σ1.next :: σ1.frames, next := [], bufs := (σ1.nextId, []) :: σ1.bufs, nextId := σ1.nextId + 1 })
-            bound clex lex cmod σ1.nextId 1 hFD hR hN
-            (by simp [hn1, hf1]) (by simp [hb1, hR.nb])
+            bound clex lex cmod σ1.nextId 1 iloops hFD hR hN
+            (by simp [hn1, hf1]) (by simp [hb1, hR.nb]) hlo
         rw [← hn1] at hRS
         obtain ⟨out, vars', hbS, evS, hret, hfS, hlS', hnS⟩ := runS m hm s body _ (!lex) false _ _ σ1.nextId [] (σ1.bufs)
           _ o1 l1 σb (by rw [hib] at hg; exact hg) hRS rfl (hlS _) (hσS.of_eq rfl rfl) rfl rfl hS hto1
@@ -392,25 +401,25 @@ theorem rc_invoke (n : Nat) (ih : ∀ m, m < n + 1 → RC ts k m) : InvokeRef ts
             subst hv
             obtain ⟨rfl, rfl⟩ := hmatch
             simp [coreRes, conv, hfc, hb3, hf3, hl3, hn3, convO]
-  | body sc args body mod hg hcb =>
+  | body sc args body mod hg hcb hndc =>
     simp only at hmod hbody
     subst hmod
     obtain ⟨hL, hn0, restD, hED⟩ := hbody trivial
     -- (hED is already in normal form)
     unfold bodyFun at he
     refine invoke_fin ts k (sf := ⟨args, noFlags, body, .body, cmod⟩) (fl := noFlags) rfl rfl rfl hb he hr ?_
-    intro bound σ1 o l3 σ2 hz hb1 hf1 hn1 hid1 hex hto
+    intro bound σ1 o l3 σ2 hz hb1 hf1 hn1 hid1 _ hex hto
     have hσ1 : StOK σ1 := ⟨by rw [hf1]; exact hσ.frames, by rw [hn1]; exact hσ.next⟩
     have F := cb_facts cmod body _ hcb
     have hinner : innerEnv ⟨args, noFlags, body, .body, cmod⟩ lexS bound E pend =
-        ⟨bound ++ E.vars, Spec.callDefsOf cmod body ++ E.defs, lexS, [], E.nb, E.nf, cmod⟩ := by
+        ⟨bound ++ E.vars, Spec.declared false cmod body ++ E.defs, lexS, [], E.nb, E.nf, cmod⟩ := by
       have hk : (Spec.Kind.body == Spec.Kind.main) = false := rfl
-      simp [innerEnv, hk, F.decl, Spec.isBuffering, noFlags]
+      simp [innerEnv, hk, Spec.isBuffering, noFlags]
     rw [hinner]
     -- the defs of the `<%call>` are already in scope (they came with the layer)
-    have hFD : ClosRel l.funs (Spec.callDefsOf cmod body ++ E.defs) := by
+    have hFD : ClosRel l.funs (Spec.declared false cmod body ++ E.defs) := by
       intro x hx
-      rw [hED, lookup_dup_prefix x hx, ← hED]
+      rw [hED, lookup_redeclared x hx _ _ _ _ (by rw [callDefsOf_names_mod]; exact hndc) F.sub, ← hED]
       exact hR.funs x hx
     obtain ⟨m, o1, hm, hS, hto1, ho⟩ := core_bare (progOf ts k) (proeff_skips _ (bodyHoist_skips body _ _ _ _ _ hg))
       (hb1.trans hb) hex hto
